@@ -201,7 +201,11 @@ func (e *Exec) storeAddr(fr *frame, st *State, a *Addr, v Val, pos token.Pos) {
 	v = e.termOf(st, v, t)
 	switch a.Kind {
 	case aField:
+		vv := v
+		vv.GoT = t
+		e.curStoreVal = &vv
 		e.accessCheck(fr, st, a, true, pos)
+		e.curStoreVal = nil
 		h := e.fieldHeap(a.Owner, a.Fld)
 		e.frameCheck(fr, st, h, a.Ref, pos)
 		e.setHeap(st, h, sto(e.heapTerm(st, h), a.Ref, v.T))
@@ -309,10 +313,17 @@ func (e *Exec) accessCheck(fr *frame, st *State, a *Addr, write bool, pos token.
 	}
 	tname := typeShortName(a.Owner)
 	fname := a.Owner.Underlying().(*types.Struct).Field(a.Fld).Name()
-	e.accessRules(fr, st, tname, fname, a.Ref, write, pos)
+	e.accessRulesT(fr, st, tname, fname, a.Ref, types.NewPointer(a.Owner), write, pos)
 }
 
 func (e *Exec) accessRules(fr *frame, st *State, tname, fname, owner string, write bool, pos token.Pos) {
+	e.accessRulesT(fr, st, tname, fname, owner, nil, write, pos)
+}
+
+// accessRulesT: `owner` in the rule's condition is the object whose field is
+// accessed (typed when known, so that the condition can mention its fields,
+// e.g. "written only while still nil").
+func (e *Exec) accessRulesT(fr *frame, st *State, tname, fname, owner string, ownerT types.Type, write bool, pos token.Pos) {
 	if e.spec == nil {
 		return
 	}
@@ -326,7 +337,10 @@ func (e *Exec) accessRules(fr *frame, st *State, tname, fname, owner string, wri
 				env.vars[k] = v
 			}
 		}
-		env.vars["owner"] = Val{T: owner, S: sInt}
+		env.vars["owner"] = Val{T: owner, S: sInt, GoT: ownerT}
+		if write && e.curStoreVal != nil {
+			env.vars["value"] = *e.curStoreVal // the value being stored
+		}
 		v := env.eval(r.Cond)
 		mode := "read"
 		if write {
